@@ -230,6 +230,22 @@ C19_Membership ==
     /\ \A i \in 1..Len(flog) : EntryOf(flog[i].asset) # -1 /\ EntryOf(flog[i].asset) <= flog[i].t
     /\ \A a \in DOMAIN pos[PID] : EntryOf(a) # -1 /\ EntryOf(a) <= now
 
+\* ---- C07 (model level) ----
+\* The run reads the market only through `quote`, and the quotes in force while the event at time t is
+\* processed are those of the market TRUNCATED after t's day: rewriting or removing any later bar changes
+\* nothing that has happened so far.  (The real twin runs confront the code with exactly that rewriting.)
+TruncBars(bars, t) == [d \in { x \in DOMAIN bars : At(x, OPEN) <= t } |-> bars[d]]
+C07_Causal ==
+  (pc \in {"update", "rebalance", "exec", "execupd", "equity"} /\ ek <= Len(events)) =>
+     \A a \in Assets :
+       quote[a].ask = (IF a \in DOMAIN Cfg.market THEN QuoteAt(FrameOf(TruncBars(Cfg.market[a], Ev.t)), Ev.t) ELSE 0)
+\* and every recorded output is stamped no later than the event being processed
+C07_NoFuture ==
+  ek <= Len(events) =>
+    /\ \A i \in 1..Len(curve) : curve[i].t <= Ev.t
+    /\ \A i \in 1..Len(flog) : flog[i].t <= Ev.t
+    /\ \A i \in 1..Len(allocs) : allocs[i].t <= Ev.t
+
 \* ---- C18 (i) ---- for a fixed configuration the next step is a function of the state
 Deterministic == TRUE    \* checked structurally: TLC reports #states = sum of the run lengths (no branching)
 =============================================================================
